@@ -221,16 +221,34 @@ def oracle_closed(case):
     if len(np.unique(x)) < 2:
         return {'nontrivial': False, 'classes': ['constant']}
     m = M.uni_class(case['cls'])()
-    value(m.fit, x.copy(), what=case['cls'] + '.fit')
+    # the sample as callers hold it: a 1-D array, the (n, 1) column the docstring asks for, a column view of a matrix,
+    # a pandas Series with a non-default index, a list
+    form = ['1d', 'column', 'view', 'series', 'list'][case['data'].get('seed', 0) % 5]
+    if form == 'column':
+        arg = x.reshape(-1, 1).copy()
+    elif form == 'view':
+        arg = np.column_stack((x[::-1], x, x * 2.0))[:, 1:2]
+    elif form == 'series':
+        import pandas as pd
+
+        arg = pd.Series(x.copy(), index=np.arange(len(x))[::-1] + 7, name='col')
+    elif form == 'list':
+        arg = x.tolist()
+    else:
+        arg = x.copy()
+    kd_, err_ = call(m.fit, arg, allow=(TypeError, ValueError, AttributeError), what='%s.fit(%s)' % (case['cls'], form))
+    if kd_ == 'exc':
+        return {'nontrivial': False, 'classes': ['form-refused:' + form]}       # refusing a container is not a wrong estimate
     d = value(m.to_dict, what='to_dict')
     if case['cls'] == 'GaussianUnivariate':
         want = {'loc': float(np.mean(x)), 'scale': float(np.std(x))}
     else:
         want = {'loc': float(np.min(x)), 'scale': float(np.max(x) - np.min(x))}
     for k, v in want.items():
+        require(np.ndim(d[k]) == 0, '%s.fit(%s): fitted %s is not a scalar: %r' % (case['cls'], form, k, d[k]), tag='closed-form')
         require(abs(float(d[k]) - v) <= 1e-12 * max(abs(v), 1e-300) + (1e-12 * abs(np.mean(x)) if k == 'loc' else 0),
                 '%s: fitted %s=%r, closed-form estimator %r' % (case['cls'], k, d[k], v), tag='closed-form')
-    return {'nontrivial': len(x) >= 200, 'classes': ['cls:' + case['cls'], 'data:' + case['data']['shape']]}
+    return {'nontrivial': len(x) >= 200, 'classes': ['cls:' + case['cls'], 'data:' + case['data']['shape'], 'form:' + form]}
 
 
 # ---- (iii) bounded families -------------------------------------------------------------------------
